@@ -8,28 +8,68 @@ import Mathlib.Tactic.Linarith
 namespace AdaptaVerif.Lemmas.PairingHeap
 open AdaptaVerif.Model.PairingHeap
 
+variable {κ : Type} [DecidableEq κ]
+
+/-- what the proofs need from the comparison `lt` (a strict weak order):
+    with `a ≤ b :⇔ lt b a = false` -/
+structure LtLaws (lt : κ → κ → Bool) : Prop where
+  asymm : ∀ a b, lt a b = true → lt b a = false
+  le_trans : ∀ a b c, lt b a = false → lt c b = false → lt c a = false
+
+/-- `a ≤ b` in the order given by `lt` -/
+def le (lt : κ → κ → Bool) (a b : κ) : Prop := lt b a = false
+
+theorem le_refl' {lt : κ → κ → Bool} (hl : LtLaws lt) (a : κ) : le lt a a := by
+  unfold le
+  cases h : lt a a with
+  | false => rfl
+  | true => have := hl.asymm a a h; rw [h] at this; cases this
+
+theorem le_of_lt' {lt : κ → κ → Bool} (hl : LtLaws lt) {a b : κ} (h : lt a b = true) : le lt a b := hl.asymm a b h
+
+theorem le_of_not_lt' {lt : κ → κ → Bool} {a b : κ} (h : ¬ lt b a = true) : le lt a b := by
+  unfold le; simpa using h
+
+theorem le_trans' {lt : κ → κ → Bool} (hl : LtLaws lt) {a b c : κ} (h1 : le lt a b) (h2 : le lt b c) : le lt a c :=
+  hl.le_trans a b c h1 h2
+
+theorem ltRat_laws : LtLaws ltRat := by
+  constructor
+  · intro a b h; simp only [ltRat, decide_eq_true_eq, decide_eq_false_iff_not] at *; linarith
+  · intro a b c h1 h2; simp only [ltRat, decide_eq_false_iff_not] at *; linarith
+
+theorem ltDist_laws : LtLaws ltDist := by
+  constructor
+  · intro a b h
+    cases a <;> cases b <;> simp only [ltDist, decide_eq_true_eq, decide_eq_false_iff_not] at * <;> first | rfl | linarith | trivial
+  · intro a b c h1 h2
+    cases a <;> cases b <;> cases c <;> simp only [ltDist, decide_eq_false_iff_not] at * <;>
+      first | rfl | linarith | trivial | (exfalso; simp at h1) | (exfalso; simp at h2)
+
 /-- `k ≤` every key stored in `t` -/
-def keyLe (k : Rat) (t : PTree) : Prop := ∀ x ∈ elems t, k ≤ x.1
+def keyLe (lt : κ → κ → Bool) (k : κ) (t : PTree κ) : Prop := ∀ x ∈ elems t, le lt k x.1
 
 /-- heap order: every node's key is `≤` all keys below it -/
-def Ordered : PTree → Prop
+def Ordered (lt : κ → κ → Bool) : PTree κ → Prop
   | .nil => True
-  | .node k _ c s => keyLe k c ∧ Ordered c ∧ Ordered s
+  | .node k _ c s => keyLe lt k c ∧ Ordered lt c ∧ Ordered lt s
 
 /-- a root: no sibling -/
-def Single : PTree → Prop
+def Single : PTree κ → Prop
   | .nil => True
   | .node _ _ _ s => s = .nil
 
-theorem ordered_node {k : Rat} {i : Nat} {c s : PTree} :
-    Ordered (.node k i c s) ↔ keyLe k c ∧ Ordered c ∧ Ordered s := Iff.rfl
+variable {lt : κ → κ → Bool}
 
-theorem ordered_nil : Ordered .nil := trivial
+theorem ordered_node {k : κ} {i : Nat} {c s : PTree κ} :
+    Ordered lt (.node k i c s) ↔ keyLe lt k c ∧ Ordered lt c ∧ Ordered lt s := Iff.rfl
 
-theorem keyLe_nil (k : Rat) : keyLe k .nil := fun x hx => by cases hx
+theorem ordered_nil : Ordered lt (.nil : PTree κ) := trivial
 
-theorem keyLe_node {k k' : Rat} {i : Nat} {c s : PTree} :
-    keyLe k (.node k' i c s) ↔ k ≤ k' ∧ keyLe k c ∧ keyLe k s := by
+theorem keyLe_nil (k : κ) : keyLe lt k .nil := fun x hx => by cases hx
+
+theorem keyLe_node {k k' : κ} {i : Nat} {c s : PTree κ} :
+    keyLe lt k (.node k' i c s) ↔ le lt k k' ∧ keyLe lt k c ∧ keyLe lt k s := by
   unfold keyLe
   simp only [elems, List.mem_cons, List.mem_append]
   constructor
@@ -40,18 +80,15 @@ theorem keyLe_node {k k' : Rat} {i : Nat} {c s : PTree} :
     · exact h2 x hx
     · exact h3 x hx
 
-theorem keyLe_mono {k k' : Rat} {t : PTree} (h : keyLe k' t) (hk : k ≤ k') : keyLe k t :=
-  fun x hx => le_trans hk (h x hx)
-
-theorem keyLe_perm {k : Rat} {t t' : PTree} (hp : (elems t').Perm (elems t)) (h : keyLe k t) : keyLe k t' :=
-  fun x hx => h x (hp.mem_iff.mp hx)
+theorem keyLe_mono (hl : LtLaws lt) {k k' : κ} {t : PTree κ} (h : keyLe lt k' t) (hk : le lt k k') : keyLe lt k t :=
+  fun x hx => le_trans' hl hk (h x hx)
 
 /-! ### link -/
 
-theorem link_nil_right (a : PTree) : link a .nil = a := by cases a <;> rfl
-theorem link_nil_left (b : PTree) : link .nil b = b := by cases b <;> rfl
+theorem link_nil_right (a : PTree κ) : link lt a .nil = a := by cases a <;> rfl
+theorem link_nil_left (b : PTree κ) : link lt .nil b = b := by cases b <;> rfl
 
-theorem elems_link {a b : PTree} (ha : Single a) : (elems (link a b)).Perm (elems a ++ elems b) := by
+theorem elems_link {a b : PTree κ} (ha : Single a) : (elems (link lt a b)).Perm (elems a ++ elems b) := by
   cases a with
   | nil => rw [link_nil_left]; simp [elems]
   | node ka ia ca sa =>
@@ -60,7 +97,7 @@ theorem elems_link {a b : PTree} (ha : Single a) : (elems (link a b)).Perm (elem
     | node kb ib cb sb =>
       have hsa : sa = .nil := ha
       subst hsa
-      by_cases hlt : kb < ka
+      by_cases hlt : lt kb ka = true
       · simp only [link, if_pos hlt]
         rw [List.perm_iff_count]
         intro x
@@ -72,7 +109,8 @@ theorem elems_link {a b : PTree} (ha : Single a) : (elems (link a b)).Perm (elem
         simp only [elems, List.count_cons, List.count_append, List.count_nil]
         omega
 
-theorem ordered_link {a b : PTree} (ha : Ordered a) (hb : Ordered b) : Ordered (link a b) := by
+theorem ordered_link (hl : LtLaws lt) {a b : PTree κ} (ha : Ordered lt a) (hb : Ordered lt b) :
+    Ordered lt (link lt a b) := by
   cases a with
   | nil => rw [link_nil_left]; exact hb
   | node ka ia ca sa =>
@@ -81,44 +119,46 @@ theorem ordered_link {a b : PTree} (ha : Ordered a) (hb : Ordered b) : Ordered (
     | node kb ib cb sb =>
       obtain ⟨ha1, ha2, _⟩ := ordered_node.mp ha
       obtain ⟨hb1, hb2, hb3⟩ := ordered_node.mp hb
-      by_cases hlt : kb < ka
+      by_cases hlt : lt kb ka = true
       · simp only [link, if_pos hlt]
-        exact ordered_node.mpr ⟨keyLe_node.mpr ⟨le_of_lt hlt, keyLe_mono ha1 (le_of_lt hlt), hb1⟩,
+        have hle : le lt kb ka := le_of_lt' hl hlt
+        exact ordered_node.mpr ⟨keyLe_node.mpr ⟨hle, keyLe_mono hl ha1 hle, hb1⟩,
           ordered_node.mpr ⟨ha1, ha2, hb2⟩, hb3⟩
       · simp only [link, if_neg hlt]
-        have hle : ka ≤ kb := not_lt.mp hlt
-        exact ordered_node.mpr ⟨keyLe_node.mpr ⟨hle, keyLe_mono hb1 hle, ha1⟩,
+        have hle : le lt ka kb := le_of_not_lt' hlt
+        exact ordered_node.mpr ⟨keyLe_node.mpr ⟨hle, keyLe_mono hl hb1 hle, ha1⟩,
           ordered_node.mpr ⟨hb1, hb2, ha2⟩, hb3⟩
 
-theorem single_link {a b : PTree} (ha : Single a) (hb : Single b) : Single (link a b) := by
+theorem single_link {a b : PTree κ} (ha : Single a) (hb : Single b) : Single (link lt a b) := by
   cases a with
   | nil => rw [link_nil_left]; exact hb
   | node ka ia ca sa =>
     cases b with
     | nil => rw [link_nil_right]; exact ha
     | node kb ib cb sb =>
-      by_cases hlt : kb < ka
+      by_cases hlt : lt kb ka = true
       · simp only [link, if_pos hlt]; exact hb
       · simp only [link, if_neg hlt]; exact hb
 
 /-! ### insert, findMin, merge -/
 
-theorem insert_spec {h : PTree} (hs : Single h) (ho : Ordered h) (k : Rat) (i : Nat) :
-    (elems (insert h k i)).Perm ((k, i) :: elems h) ∧ Ordered (insert h k i) ∧ Single (insert h k i) := by
-  have hnew : Ordered (.node k i .nil .nil) := ordered_node.mpr ⟨keyLe_nil k, ordered_nil, ordered_nil⟩
-  have hsn : Single (.node k i .nil .nil) := rfl
+theorem insert_spec (hl : LtLaws lt) {h : PTree κ} (hs : Single h) (ho : Ordered lt h) (k : κ) (i : Nat) :
+    (elems (Model.PairingHeap.insert lt h k i)).Perm ((k, i) :: elems h) ∧
+      Ordered lt (Model.PairingHeap.insert lt h k i) ∧ Single (Model.PairingHeap.insert lt h k i) := by
+  have hnew : Ordered lt (.node k i .nil .nil) := ordered_node.mpr ⟨keyLe_nil k, ordered_nil, ordered_nil⟩
+  have hsn : Single (.node k i .nil .nil : PTree κ) := rfl
   cases h with
   | nil => exact ⟨by simp [Model.PairingHeap.insert, elems], hnew, hsn⟩
   | node kh ih ch sh =>
-    refine ⟨?_, ordered_link ho hnew, single_link hs hsn⟩
-    have := elems_link (b := .node k i .nil .nil) hs
+    refine ⟨?_, ordered_link hl ho hnew, single_link hs hsn⟩
+    have := elems_link (lt := lt) (b := .node k i .nil .nil) hs
     refine this.trans ?_
     simp only [elems, List.append_nil]
     exact List.perm_append_comm
 
 /-- `findMin` returns an element of the heap whose key is minimal -/
-theorem findMin_spec {h : PTree} (hs : Single h) (ho : Ordered h) {k : Rat} {i : Nat}
-    (hf : findMin h = some (k, i)) : (k, i) ∈ elems h ∧ ∀ x ∈ elems h, k ≤ x.1 := by
+theorem findMin_spec (hl : LtLaws lt) {h : PTree κ} (hs : Single h) (ho : Ordered lt h) {k : κ} {i : Nat}
+    (hf : findMin h = some (k, i)) : (k, i) ∈ elems h ∧ ∀ x ∈ elems h, le lt k x.1 := by
   cases h with
   | nil => simp [findMin] at hf
   | node kh ih ch sh =>
@@ -130,26 +170,26 @@ theorem findMin_spec {h : PTree} (hs : Single h) (ho : Ordered h) {k : Rat} {i :
     intro x hx
     simp only [elems, List.append_nil, List.mem_cons] at hx
     rcases hx with rfl | hx
-    · exact le_refl _
+    · exact le_refl' hl _
     · exact (ordered_node.mp ho).1 x hx
 
-theorem findMin_none {h : PTree} : findMin h = none ↔ elems h = [] := by
+theorem findMin_none {h : PTree κ} : findMin h = none ↔ elems h = [] := by
   cases h <;> simp [findMin, elems]
 
-theorem merge_spec {h r : PTree} (hs : Single h) (ho : Ordered h) (rs : Single r) (ro : Ordered r) :
-    (elems (merge h r)).Perm (elems h ++ elems r) ∧ Ordered (merge h r) ∧ Single (merge h r) := by
+theorem merge_spec (hl : LtLaws lt) {h r : PTree κ} (hs : Single h) (ho : Ordered lt h) (rs : Single r) (ro : Ordered lt r) :
+    (elems (merge lt h r)).Perm (elems h ++ elems r) ∧ Ordered lt (merge lt h r) ∧ Single (merge lt h r) := by
   cases h with
   | nil => exact ⟨by simp [merge, elems], ro, rs⟩
-  | node kh ih ch sh => exact ⟨elems_link hs, ordered_link ho ro, single_link hs rs⟩
+  | node kh ih ch sh => exact ⟨elems_link hs, ordered_link hl ho ro, single_link hs rs⟩
 
 /-! ### deleteMin (two-pass combineSiblings) -/
 
 /-- all trees of a list are ordered roots -/
-def Roots (l : List PTree) : Prop := ∀ t ∈ l, Single t ∧ Ordered t
+def Roots (lt : κ → κ → Bool) (l : List (PTree κ)) : Prop := ∀ t ∈ l, Single t ∧ Ordered lt t
 
-def elemsL (l : List PTree) : List (Rat × Nat) := l.flatMap elems
+def elemsL (l : List (PTree κ)) : List (κ × Nat) := l.flatMap elems
 
-theorem siblings_spec : ∀ (t : PTree), Ordered t → Roots (siblings t) ∧ (elemsL (siblings t)).Perm (elems t) := by
+theorem siblings_spec : ∀ (t : PTree κ), Ordered lt t → Roots lt (siblings t) ∧ (elemsL (siblings t)).Perm (elems t) := by
   intro t
   induction t with
   | nil => intro _; exact ⟨fun t ht => by simp [siblings] at ht, by simp [siblings, elemsL, elems]⟩
@@ -167,7 +207,8 @@ theorem siblings_spec : ∀ (t : PTree), Ordered t → Roots (siblings t) ∧ (e
       simp only [elemsL] at h2
       exact List.Perm.cons _ (List.Perm.append_left _ h2)
 
-theorem pass1_spec : ∀ (l : List PTree), Roots l → Roots (pass1 l) ∧ (elemsL (pass1 l)).Perm (elemsL l) := by
+theorem pass1_spec (hl : LtLaws lt) : ∀ (l : List (PTree κ)), Roots lt l →
+    Roots lt (pass1 lt l) ∧ (elemsL (pass1 lt l)).Perm (elemsL l) := by
   intro l
   induction l using pass1.induct with
   | case1 a b rest ih =>
@@ -179,22 +220,22 @@ theorem pass1_spec : ∀ (l : List PTree), Roots l → Roots (pass1 l) ∧ (elem
     constructor
     · intro t ht
       rcases List.mem_cons.mp ht with rfl | ht
-      · exact ⟨single_link ha.1 hb.1, ordered_link ha.2 hb.2⟩
+      · exact ⟨single_link ha.1 hb.1, ordered_link hl ha.2 hb.2⟩
       · exact h1 t ht
     · simp only [elemsL, List.flatMap_cons] at h2 ⊢
       rw [← List.append_assoc]
       exact List.Perm.append (elems_link ha.1) h2
   | case2 l hne =>
     intro hr
-    have : pass1 l = l := by
+    have : pass1 lt l = l := by
       unfold pass1
       split
       · rename_i a b rest; exact absurd rfl (hne a b rest)
       · rfl
     rw [this]; exact ⟨hr, List.Perm.refl _⟩
 
-theorem pass2_spec : ∀ (l : List PTree), Roots l →
-    Single (pass2 l) ∧ Ordered (pass2 l) ∧ (elems (pass2 l)).Perm (elemsL l) := by
+theorem pass2_spec (hl : LtLaws lt) : ∀ (l : List (PTree κ)), Roots lt l →
+    Single (pass2 lt l) ∧ Ordered lt (pass2 lt l) ∧ (elems (pass2 lt l)).Perm (elemsL l) := by
   intro l
   induction l using pass2.induct with
   | case1 => intro _; exact ⟨trivial, ordered_nil, by simp [pass2, elems, elemsL]⟩
@@ -203,37 +244,38 @@ theorem pass2_spec : ∀ (l : List PTree), Roots l →
     intro hr
     have ha := hr a (by simp)
     obtain ⟨h1, h2, h3⟩ := ih (fun t ht => hr t (by simp [ht]))
-    have hp : pass2 (a :: rest) = link a (pass2 rest) := by
+    have hp : pass2 lt (a :: rest) = link lt a (pass2 lt rest) := by
       cases rest with
       | nil => exact absurd rfl hne
       | cons b r => rfl
     rw [hp]
-    refine ⟨single_link ha.1 h1, ordered_link ha.2 h2, ?_⟩
+    refine ⟨single_link ha.1 h1, ordered_link hl ha.2 h2, ?_⟩
     simp only [elemsL, List.flatMap_cons] at h3 ⊢
     exact (elems_link ha.1).trans (List.Perm.append_left _ h3)
 
 /-- `deleteMin` removes exactly the root element and re-establishes a heap-ordered root -/
-theorem deleteMin_spec {k : Rat} {i : Nat} {c : PTree} (ho : Ordered (.node k i c .nil)) :
-    (elems (.node k i c .nil)).Perm ((k, i) :: elems (deleteMin (.node k i c .nil))) ∧
-    Ordered (deleteMin (.node k i c .nil)) ∧ Single (deleteMin (.node k i c .nil)) := by
+theorem deleteMin_spec (hl : LtLaws lt) {k : κ} {i : Nat} {c : PTree κ} (ho : Ordered lt (.node k i c .nil)) :
+    (elems (.node k i c .nil)).Perm ((k, i) :: elems (deleteMin lt (.node k i c .nil))) ∧
+    Ordered lt (deleteMin lt (.node k i c .nil)) ∧ Single (deleteMin lt (.node k i c .nil)) := by
   obtain ⟨hs1, hs2⟩ := siblings_spec c (ordered_node.mp ho).2.1
-  obtain ⟨hp1, hp2⟩ := pass1_spec _ hs1
-  obtain ⟨h1, h2, h3⟩ := pass2_spec _ hp1
+  obtain ⟨hp1, hp2⟩ := pass1_spec hl _ hs1
+  obtain ⟨h1, h2, h3⟩ := pass2_spec hl _ hp1
   refine ⟨?_, h2, h1⟩
   simp only [elems, List.append_nil, deleteMin, combineSiblings]
   exact List.Perm.cons _ ((h3.trans (hp2.trans hs2)).symm)
 
 /-! ### decreaseKey -/
 
-theorem detach_spec (id : Nat) : ∀ (t : PTree), Ordered t →
+theorem detach_spec (id : Nat) : ∀ (t : PTree κ), Ordered lt t →
     (∀ t' d, detach id t = (t', some d) →
-      (∃ kd cd, d = .node kd id cd .nil) ∧ Ordered d ∧ Ordered t' ∧ (elems t).Perm (elems d ++ elems t')) ∧
-    (∀ t', detach id t = (t', none) → t' = t) := by
+      (∃ kd cd, d = .node kd id cd .nil) ∧ Ordered lt d ∧ Ordered lt t' ∧ (elems t).Perm (elems d ++ elems t')) ∧
+    (∀ t', detach id t = (t', none) → t' = t ∧ ∀ x ∈ elems t, x.2 ≠ id) := by
   intro t
   induction t with
   | nil =>
     intro _
-    exact ⟨fun t' d h => by simp [detach] at h, fun t' h => by simp [detach] at h; exact h.symm⟩
+    exact ⟨fun t' d h => by simp [detach] at h,
+      fun t' h => by simp [detach] at h; exact ⟨h.symm, fun x hx => by cases hx⟩⟩
   | node k i c s ihc ihs =>
     intro ho
     obtain ⟨hkc, hoc, hos⟩ := ordered_node.mp ho
@@ -272,7 +314,7 @@ theorem detach_spec (id : Nat) : ∀ (t : PTree), Ordered t →
           · intro t' h; simp at h
         | none =>
           simp only
-          have hc' : c' = c := ihc2 c' hdc
+          obtain ⟨hc', hcno⟩ := ihc2 c' hdc
           cases hds : detach id s with
           | mk s' rs =>
             simp only
@@ -291,17 +333,24 @@ theorem detach_spec (id : Nat) : ∀ (t : PTree), Ordered t →
             · intro t' h
               simp only [Prod.mk.injEq] at h
               obtain ⟨rfl, rfl⟩ := h
-              rw [ihs2 s' hds]
+              obtain ⟨hs', hsno⟩ := ihs2 s' hds
+              refine ⟨by rw [hs'], ?_⟩
+              intro x hx
+              simp only [elems, List.mem_cons, List.mem_append] at hx
+              rcases hx with rfl | hx | hx
+              · exact hid
+              · exact hcno x hx
+              · exact hsno x hx
 
-/-- `decreaseKey` on an ordered root: heap order survives when the new key is not larger than the
-    old one, and exactly one stored pair `(old, id)` becomes `(new, id)` (or nothing changes when
-    `id` is not in the heap) -/
-theorem decreaseKey_spec {h : PTree} (hs : Single h) (ho : Ordered h) (id : Nat) (nk : Rat) :
-    decreaseKey h id nk = h ∨
-    (∃ ok rest, (elems h).Perm ((ok, id) :: rest) ∧ (elems (decreaseKey h id nk)).Perm ((nk, id) :: rest) ∧
-      Single (decreaseKey h id nk) ∧ (nk ≤ ok → Ordered (decreaseKey h id nk))) := by
+/-- `decreaseKey` on an ordered root: either `id` is not stored and nothing changes, or exactly one
+    stored pair `(old, id)` becomes `(new, id)`, the result is a root, and heap order survives when
+    the new key is not larger than the old one -/
+theorem decreaseKey_spec (hl : LtLaws lt) {h : PTree κ} (hs : Single h) (ho : Ordered lt h) (id : Nat) (nk : κ) :
+    (decreaseKey lt h id nk = h ∧ ∀ x ∈ elems h, x.2 ≠ id) ∨
+    (∃ ok rest, (elems h).Perm ((ok, id) :: rest) ∧ (elems (decreaseKey lt h id nk)).Perm ((nk, id) :: rest) ∧
+      Single (decreaseKey lt h id nk) ∧ (le lt nk ok → Ordered lt (decreaseKey lt h id nk))) := by
   cases h with
-  | nil => left; rfl
+  | nil => left; exact ⟨rfl, fun x hx => by cases hx⟩
   | node k i c s =>
     have hsn : s = .nil := hs
     subst hsn
@@ -312,19 +361,27 @@ theorem decreaseKey_spec {h : PTree} (hs : Single h) (ho : Ordered h) (id : Nat)
       refine ⟨k, elems c ++ [], ?_, ?_, rfl, ?_⟩
       · rw [← hid]; simp [elems]
       · rw [← hid]; simp [elems]
-      · intro hle; exact ordered_node.mpr ⟨keyLe_mono hkc hle, hoc, ordered_nil⟩
+      · intro hle; exact ordered_node.mpr ⟨keyLe_mono hl hkc hle, hoc, ordered_nil⟩
     · simp only [decreaseKey, if_neg hid]
-      obtain ⟨hd1, hd2⟩ := detach_spec id c hoc
+      obtain ⟨hd1, hd2⟩ := detach_spec (lt := lt) id c hoc
       cases hdc : detach id c with
       | mk c' rc =>
         cases rc with
-        | none => left; rfl
+        | none =>
+          left
+          obtain ⟨_, hno⟩ := hd2 c' hdc
+          refine ⟨rfl, ?_⟩
+          intro x hx
+          simp only [elems, List.append_nil, List.mem_cons] at hx
+          rcases hx with rfl | hx
+          · exact hid
+          · exact hno x hx
         | some d =>
           simp only
           right
           obtain ⟨⟨kd, cd, rfl⟩, hod, hoc', hperm⟩ := hd1 c' _ hdc
-          have hroot : Single (.node k i c' .nil) := rfl
-          have hkc' : keyLe k c' := fun x hx => hkc x (hperm.mem_iff.mpr (List.mem_append_right _ hx))
+          have hroot : Single (.node k i c' .nil : PTree κ) := rfl
+          have hkc' : keyLe lt k c' := fun x hx => hkc x (hperm.mem_iff.mpr (List.mem_append_right _ hx))
           refine ⟨kd, (k, i) :: (elems cd ++ elems c'), ?_, ?_, single_link hroot rfl, ?_⟩
           · simp only [elems, List.append_nil]
             rw [List.perm_iff_count] at hperm ⊢
@@ -339,72 +396,82 @@ theorem decreaseKey_spec {h : PTree} (hs : Single h) (ho : Ordered h) (id : Nat)
             simp only [List.count_cons, List.count_append]
             omega
           · intro hle
-            apply ordered_link (ordered_node.mpr ⟨hkc', hoc', ordered_nil⟩)
-            exact ordered_node.mpr ⟨keyLe_mono (ordered_node.mp hod).1 hle, (ordered_node.mp hod).2.1, ordered_nil⟩
+            apply ordered_link hl (ordered_node.mpr ⟨hkc', hoc', ordered_nil⟩)
+            exact ordered_node.mpr ⟨keyLe_mono hl (ordered_node.mp hod).1 hle, (ordered_node.mp hod).2.1, ordered_nil⟩
 
 /-! ### arbitrary operation sequences -/
 
-inductive Op where
-  | insert (key : Rat) (id : Nat)
+inductive Op (κ : Type) where
+  | insert (key : κ) (id : Nat)
   | deleteMin
-  | decreaseKey (id : Nat) (newKey : Rat)
-  | merge (items : List (Rat × Nat))      -- a second heap built by inserting `items`, then merged
+  | decreaseKey (id : Nat) (newKey : κ)
+  | merge (items : List (κ × Nat))      -- a second heap built by inserting `items`, then merged
 
-def build (items : List (Rat × Nat)) : PTree :=
-  items.foldl (fun h x => Model.PairingHeap.insert h x.1 x.2) .nil
+def build (lt : κ → κ → Bool) (items : List (κ × Nat)) : PTree κ :=
+  items.foldl (fun h x => Model.PairingHeap.insert lt h x.1 x.2) .nil
 
-def applyOp (h : PTree) : Op → PTree
-  | .insert k i => Model.PairingHeap.insert h k i
-  | .deleteMin => deleteMin h
-  | .decreaseKey i nk => decreaseKey h i nk
-  | .merge items => merge h (build items)
+def applyOp (lt : κ → κ → Bool) (h : PTree κ) : Op κ → PTree κ
+  | .insert k i => Model.PairingHeap.insert lt h k i
+  | .deleteMin => deleteMin lt h
+  | .decreaseKey i nk => decreaseKey lt h i nk
+  | .merge items => merge lt h (build lt items)
 
 /-- the documented precondition of `decreaseKey`: the new value is not larger than the stored one -/
-def Legal (h : PTree) : Op → Prop
-  | .decreaseKey i nk => ∀ x ∈ elems h, x.2 = i → nk ≤ x.1
+def Legal (lt : κ → κ → Bool) (h : PTree κ) : Op κ → Prop
+  | .decreaseKey i nk => ∀ x ∈ elems h, x.2 = i → le lt nk x.1
   | _ => True
 
 /-- every operation of a legal sequence is legal in the state it is applied to -/
-def LegalSeq : PTree → List Op → Prop
+def LegalSeq (lt : κ → κ → Bool) : PTree κ → List (Op κ) → Prop
   | _, [] => True
-  | h, op :: rest => Legal h op ∧ LegalSeq (applyOp h op) rest
+  | h, op :: rest => Legal lt h op ∧ LegalSeq lt (applyOp lt h op) rest
 
 /-- a heap-ordered root (or the empty heap) -/
-def Good (h : PTree) : Prop := Single h ∧ Ordered h
+def Good (lt : κ → κ → Bool) (h : PTree κ) : Prop := Single h ∧ Ordered lt h
 
-theorem good_build (items : List (Rat × Nat)) : Good (build items) := by
+theorem good_nil : Good lt (.nil : PTree κ) := ⟨trivial, ordered_nil⟩
+
+theorem good_insert (hl : LtLaws lt) {h : PTree κ} (hg : Good lt h) (k : κ) (i : Nat) :
+    Good lt (Model.PairingHeap.insert lt h k i) :=
+  ⟨(insert_spec hl hg.1 hg.2 k i).2.2, (insert_spec hl hg.1 hg.2 k i).2.1⟩
+
+theorem good_deleteMin (hl : LtLaws lt) {h : PTree κ} (hg : Good lt h) : Good lt (deleteMin lt h) := by
+  cases h with
+  | nil => exact ⟨trivial, ordered_nil⟩
+  | node k i c s =>
+    have hs : s = .nil := hg.1
+    subst hs
+    exact ⟨(deleteMin_spec hl hg.2).2.2, (deleteMin_spec hl hg.2).2.1⟩
+
+theorem good_build (hl : LtLaws lt) (items : List (κ × Nat)) : Good lt (build lt items) := by
   unfold build
-  have : ∀ (l : List (Rat × Nat)) (h : PTree), Good h →
-      Good (l.foldl (fun h x => Model.PairingHeap.insert h x.1 x.2) h) := by
+  have : ∀ (l : List (κ × Nat)) (h : PTree κ), Good lt h →
+      Good lt (l.foldl (fun h x => Model.PairingHeap.insert lt h x.1 x.2) h) := by
     intro l
     induction l with
     | nil => intro h hg; exact hg
-    | cons x rest ih => intro h hg; exact ih _ ⟨(insert_spec hg.1 hg.2 x.1 x.2).2.2, (insert_spec hg.1 hg.2 x.1 x.2).2.1⟩
-  exact this items .nil ⟨trivial, ordered_nil⟩
+    | cons x rest ih => intro h hg; exact ih _ (good_insert hl hg x.1 x.2)
+  exact this items .nil good_nil
 
-theorem good_applyOp {h : PTree} (hg : Good h) {op : Op} (hl : Legal h op) : Good (applyOp h op) := by
+theorem good_applyOp (hl : LtLaws lt) {h : PTree κ} (hg : Good lt h) {op : Op κ} (hlg : Legal lt h op) :
+    Good lt (applyOp lt h op) := by
   cases op with
-  | insert k i => exact ⟨(insert_spec hg.1 hg.2 k i).2.2, (insert_spec hg.1 hg.2 k i).2.1⟩
-  | deleteMin =>
-    cases h with
-    | nil => exact ⟨trivial, ordered_nil⟩
-    | node k i c s =>
-      have hs : s = .nil := hg.1
-      subst hs
-      exact ⟨(deleteMin_spec hg.2).2.2, (deleteMin_spec hg.2).2.1⟩
+  | insert k i => exact good_insert hl hg k i
+  | deleteMin => exact good_deleteMin hl hg
   | decreaseKey i nk =>
-    rcases decreaseKey_spec hg.1 hg.2 i nk with e | ⟨ok, rest, hp, _, hs, ho⟩
-    · show Good (decreaseKey h i nk); rw [e]; exact hg
+    rcases decreaseKey_spec hl hg.1 hg.2 i nk with ⟨e, _⟩ | ⟨ok, rest, hp, _, hs, ho⟩
+    · show Good lt (decreaseKey lt h i nk); rw [e]; exact hg
     · refine ⟨hs, ho ?_⟩
-      exact hl (ok, i) (hp.mem_iff.mpr (List.mem_cons_self)) rfl
+      exact hlg (ok, i) (hp.mem_iff.mpr (List.mem_cons_self)) rfl
   | merge items =>
-    have hb := good_build items
-    exact ⟨(merge_spec hg.1 hg.2 hb.1 hb.2).2.2, (merge_spec hg.1 hg.2 hb.1 hb.2).2.1⟩
+    have hb := good_build hl items
+    exact ⟨(merge_spec hl hg.1 hg.2 hb.1 hb.2).2.2, (merge_spec hl hg.1 hg.2 hb.1 hb.2).2.1⟩
 
-theorem good_run : ∀ (ops : List Op) (h : PTree), Good h → LegalSeq h ops → Good (ops.foldl applyOp h) := by
+theorem good_run (hl : LtLaws lt) : ∀ (ops : List (Op κ)) (h : PTree κ), Good lt h → LegalSeq lt h ops →
+    Good lt (ops.foldl (applyOp lt) h) := by
   intro ops
   induction ops with
   | nil => intro h hg _; exact hg
-  | cons op rest ih => intro h hg hl; exact ih _ (good_applyOp hg hl.1) hl.2
+  | cons op rest ih => intro h hg hlg; exact ih _ (good_applyOp hl hg hlg.1) hlg.2
 
 end AdaptaVerif.Lemmas.PairingHeap
